@@ -7,7 +7,7 @@
     oracle; Supported probes; thread creation and exit; dropping privilege; blocking and waking), folded over
     the kernel state by [run_hist]. Every theorem below quantifies over EVERY history prefix [pre]. *)
 From Coq Require Import List NArith Bool String.
-From Seccomp Require Import Machine Raw Result KernelCheck KernelState Skeleton Loader LoaderProofs.
+From Seccomp Require Import Machine Raw Result KernelCheck KernelState Skeleton Loader LoaderProofs GatedProofs.
 From Gen Require Import GenSkeletons GenConsts.
 From Props Require Import LoaderInst SupportedInst.
 Import ListNotations.
@@ -124,6 +124,28 @@ Print Assumptions C09_supported_answers.
 Theorem C09_histories_wellformed : forall ops st, wf st -> Forall op_ok ops -> wf (hist st ops).
 Proof. exact (run_hist_wf kload ksupported kload_spec ksupported_spec). Qed.
 Print Assumptions C09_histories_wellformed.
+
+(** ** The same loader on a kernel that filters the loader's OWN system calls ([kload_g], [ksupported_g]: do_seccomp_g /
+    do_prctl_g run the filters the calling thread already carries on seccomp(2) and prctl(2) first).
+    Where no installed filter intercepts the two calls the gated kernel answers exactly like the plain one, so every
+    theorem above speaks about it too ... *)
+Theorem C09_gated_kernel_agrees_where_open : forall t st f, open st ->
+  ref_load kstate do_seccomp_g do_prctl_g t st f = ref_load kstate do_seccomp do_prctl t st f.
+Proof. exact open_agrees. Qed.
+Print Assumptions C09_gated_kernel_agrees_where_open.
+
+(** ... and where the filters already in force answer seccomp(2) with an error (an outer sandbox profile, an earlier
+    policy of this very library), LoadFilter returns an error and no thread's filter stack changes - whatever was
+    requested, whatever the scheduler does. *)
+Theorem C09_refused_by_earlier_filter_is_error : forall w f, refuses (w_k w) SYS_seccomp ->
+  snd (kload_g w f) = LErr /\ stacks (w_k (fst (kload_g w f))) = stacks (w_k w).
+Proof. exact (load_refused_seccomp kload_g kload_g_spec). Qed.
+Print Assumptions C09_refused_by_earlier_filter_is_error.
+
+(** Supported() changes nothing on that kernel either, whatever the filters answer *)
+Theorem C09_supported_pure_gated : forall w, w_k (fst (ksupported_g w)) = w_k w.
+Proof. exact (supported_pure_gated ksupported_g ksupported_g_spec). Qed.
+Print Assumptions C09_supported_pure_gated.
 
 (** Non-vacuity, by evaluation of the regenerated skeleton on the kernel model. *)
 Definition ok_prog : list instr := [ILd 0; IRet 2147418112].
